@@ -18,7 +18,7 @@ static void ldec_close(ldec_t *d){ if(d->live){ vorbis_block_clear(&d->vb); vorb
 static void case_c01(const drvargs_t *a,long id){
   rng_t r; rng_seed(&r,a->seed,1,(uint64_t)id);
   res_begin(id);
-  int profile=(int)(id%SP_NPROFILES); int sc= a->thorough? (id%50==49?2:1) : 1;
+  int profile=(int)(id%SP_NPROFILES); int sc= a->thorough? (id%50==49?2:1) : (id%100==99?2:1);   /* size class 2: up to 255 channels, long blocks drawn freely */
   sp_set_gen_amp( (id%7==3)?1e4:1.0 );
   sp_setup *S=sp_gen_setup(&r,profile,sc); char desc[400]; sp_describe(S,desc,sizeof desc);
   int np=(int)rng_range(&r,6,a->thorough?40:16);
@@ -114,7 +114,7 @@ static void case_c05(const drvargs_t *a,long id){
   enccfg_t c; enccfg_default(&c); char desc[400];
   static const long rates[]={8000,11025,16000,22050,32000,44100,48000,96000,12000,64000,192000,9000,15000,19000,26000,40000,50000};
   c.rate=rates[rng_below(&r,17)]; static const int chs[]={1,2,2,1,3,6,4,8,5,2}; c.channels=chs[rng_below(&r,10)];
-  if(a->thorough && id%60==59){ c.channels=(int)rng_range(&r,9,255); }
+  if(id%60==59){ c.channels=(int)rng_range(&r,9,255); }   /* both tiers */
   c.quality=(float)(-0.1+1.1*rng_unit(&r)); if(rng_chance(&r,0.2)) c.quality= rng_chance(&r,0.5)?-0.1f:1.0f;
   int managed=0, hardmax=0;
   int mk=(int)rng_below(&r,10);
